@@ -13,6 +13,7 @@ from mici.errors import (
     Error,
     HamiltonianDivergenceError,
     IntegratorError,
+    LinAlgError,
     NonReversibleStepError,
 )
 from mici.utils import LogRepFloat
@@ -298,7 +299,11 @@ class MetropolisIntegrationTransition(IntegrationTransition):
             # Reverse integration direction of proposal to form an involution
             state_p.dir *= -1
         if state_p is not state:
-            h_final = self.system.h(state_p)
+            try:
+                h_final = self.system.h(state_p)
+            except LinAlgError:
+                # Treat non-finite values in Hamiltonian computation as NaN Hamiltonian
+                h_final = np.nan
             h_diff = h_init - h_final
             # Explicitly check if h_diff is NaN as min(0, NaN) = 0
             accept_prob = 0.0 if np.isnan(h_diff) else np.exp(min(0, h_diff))
@@ -655,7 +660,11 @@ class DynamicIntegrationTransition(IntegrationTransition):
             try:
                 # integrate forward/backward one step depending on state.dir
                 state = self.integrator.step(state)
-                h = self.system.h(state)
+                try:
+                    h = self.system.h(state)
+                except LinAlgError:
+                    # Treat non-finite values in Hamiltonian computation as NaN Hamiltonian
+                    h = np.nan
                 h = np.inf if np.isnan(h) else h
                 tree = self._new_leave(state, h, aux_vars)
                 proposal = state
